@@ -346,6 +346,15 @@ fn separate_rules(text: &str) -> Result<Vec<String>, String> {
         Some(msg) => { return Err(msg); },
     }
 
+    // Text after the last period is a rule which was not finished (a file
+    // which was cut short, or a forgotten period). It must not be dropped
+    // without a word.
+    if rule_str.trim().len() > 0 {
+        let chrs = str_to_chars!(rule_str.trim());
+        let msg = format!("Missing period at end of: {}", trim_error_line(&chrs));
+        return Err(msg);
+    }
+
     return Ok(rules);
 
 } // separate_rules
